@@ -1469,6 +1469,54 @@ def h_iter_chain(I, st, a, t, b):
     return {'#iter': 'seq', 'items': tuple(_items_of(I, st, a[0])) + tuple(_items_of(I, st, a[1])), 'pos': 0}
 
 
+def h_reverse(I, st, a, t, b):
+    cur = _seq_of(I, st, a[0])
+    I._write_ref(st, a[0], tuple(reversed(cur)))
+    return ()
+
+
+def h_vec_append(I, st, a, t, b):
+    x, y = _seq_of(I, st, a[0]), _seq_of(I, st, a[1])
+    I._write_ref(st, a[0], tuple(x) + tuple(y))
+    I._write_ref(st, a[1], ())
+    return ()
+
+
+def h_mem_swap(I, st, a, t, b):
+    x, y = I.deref(a[0], st), I.deref(a[1], st)
+    I._write_ref(st, a[0], y)
+    I._write_ref(st, a[1], x)
+    return ()
+
+
+def h_str_eq(I, st, a, t, b):
+    x, y = a[0], a[1]
+    for _ in range(3):
+        if isinstance(x, tuple) and x and x[0] in ('ref', 'refval', 'mref'):
+            x = I.deref(x, st)
+        if isinstance(y, tuple) and y and y[0] in ('ref', 'refval', 'mref'):
+            y = I.deref(y, st)
+    if isinstance(x, str) and isinstance(y, str):
+        return x == y
+    if isinstance(x, Sym) and isinstance(y, Sym):
+        return x == y
+    raise Unsupported('eq of %r, %r' % (x, y))
+
+
+def h_successors(I, st, a, t, b):
+    cur = _deref_arg(I, st, a[0])
+    out = []
+    while isinstance(cur, tuple) and cur and cur[0] == 'enum' and cur[1] == 1:
+        v = cur[2][0]
+        out.append(v)
+        if len(out) > 64:
+            raise Undecided('successors() does not end')
+        cur = _call_f(I, st, a[1], [('refval', v, ())])
+    if not (isinstance(cur, tuple) and cur and cur[0] == 'enum'):
+        raise Unsupported('successors() over %r' % (cur,))
+    return {'#iter': 'seq', 'items': tuple(out), 'pos': 0}
+
+
 def h_iter_take(I, st, a, t, b):
     n = a[1]
     if not isinstance(n, int):
@@ -1661,6 +1709,7 @@ BUILTINS.update({
     'Vec::is_empty': h_is_empty, 'slice::is_empty': h_is_empty, 'slice::last': h_seq_last, 'slice::first': h_seq_first, 'slice::get': h_seq_get,
     'iter::once': h_iter_once, 'sources::once': h_iter_once, 'once::once': h_iter_once, 'Iterator::chain': h_iter_chain, 'slice::windows': h_windows, 'Option::unwrap': h_opt_unwrap,
     'IndexMut::index_mut': h_index_mut,
-    'Iterator::take': h_iter_take, 'Iterator::skip': h_iter_skip,
+    'Iterator::take': h_iter_take, 'Iterator::skip': h_iter_skip, 'slice::reverse': h_reverse, 'Vec::append': h_vec_append, 'mem::swap': h_mem_swap,
+    'PartialEq::eq': h_str_eq, 'str::eq': h_str_eq, 'iter::successors': h_successors, 'successors::successors': h_successors, 'sources::successors': h_successors,
     'Index::index': h_vec_index, 'Vec::new': h_vec_new, 'Vec::with_capacity': h_vec_new, 'Vec::push': h_vec_push, 'slice::iter_mut': h_iter_mut, 'Vec::iter_mut': h_iter_mut, 'Iterator::filter': h_iter_filter, 'Iterator::filter_map': h_iter_filter_map, 'Extend::extend': h_extend, 'Vec::extend': h_extend,
 })
